@@ -267,3 +267,16 @@ def validate_traces(chk, name, module, cfg, traces, scratch, timeout=3600):
     elif "Postcondition" in r.stdout or "postcondition" in r.stdout:
         raise tlc.MachineryError("postcondition failed without a report:\n" + r.stdout[-2000:])
     return rejected, r
+
+
+def parallel_map(fn, items, procs=16, chunk=500):
+    """Apply fn to every item in forked worker processes (order preserved).  fn must be a
+    module-level function; results must be picklable."""
+    import multiprocessing as mp
+
+    items = list(items)
+    if len(items) < 2 * chunk or procs <= 1:
+        return [fn(x) for x in items]
+    ctx = mp.get_context("fork")
+    with ctx.Pool(procs) as pool:
+        return pool.map(fn, items, chunksize=chunk)
